@@ -387,7 +387,9 @@ def run_prio(ctx: Ctx) -> RuleResult:
     if not ok:
         res.finding(tn, tn.node, 'TokenNode no longer takes the terminal priority by default', construct='prio:token-default')
     sc = repo.func('lark.parsers.earley:Parser._parse.scan')
-    ok = any(isinstance(n, ast.Call) and norm(n.func) == 'TokenNode' and any(k.arg == 'priority' and norm(k.value) == '0' for k in n.keywords)
+    from ..exprs import call_args_by_name
+    ok = any(isinstance(n, ast.Call) and norm(n.func) == 'TokenNode'
+             and norm(call_args_by_name(repo, n, 'lark.parsers.earley_forest:TokenNode').get('priority', ast.Constant(value=None))) == '0'
              for n in sc.body_nodes())
     res.ob('%s %s' % (sc.loc(), sc.qual), 'with the basic lexer, token nodes have priority 0 (the lexer already used the priorities)', ok)
     if not ok:
